@@ -10,7 +10,7 @@ def run(tier, seed):
     thorough = tier == "thorough"
     m1 = vfsrun.mc_vfs(out, "MC_Vfs_L1")        # CopyLaw, MoveIsRelocation, FailedCallAtomic on every reachable state x every ordered pair
     # every tree of the namespace x every ordered pair of paths x copy / move_p / copy_b with every chmod option
-    vfsrun.bfs(out, "copy", ["--links", "1", "--alpha", "copy"] + ([] if thorough else ["--maxstates", "900"]), groups_per_chunk=430 if thorough else 60)
+    vfsrun.bfs(out, "copy", ["--links", "1", "--alpha", "copy", "--maxstates", "5000" if thorough else "900"], groups_per_chunk=430 if thorough else 60)
     vfsrun.bfs(out, "copy-a-ab", ["--links", "0", "--alpha", "copy", "--names", "a,ab"] + ([] if thorough else ["--maxstates", "250"]), groups_per_chunk=20)
     n, ln = (300, 200) if thorough else (24, 100)
     vfsrun.hist(out, "rand", "rand", ["--n", str(n), "--len", str(ln), "--seed", str(seed + 17)], recs_per_chunk=19 if thorough else 2)
